@@ -1,5 +1,5 @@
 \* C17 document layer, closed (quick): 2 header kinds x every history of <= 3 add_* calls over the four
-\* context paragraphs and at most one focus paragraph (1 or 3 patterns x copyright texts of <= 2 lines x
+\* context paragraphs and at most one focus paragraph (3 patterns, copyright texts of <= 2 lines x
 \* license texts of <= 2 lines over E I ID P)
 CONSTANTS
   Mode = "doc"
@@ -7,7 +7,7 @@ CONSTANTS
   MaxLen = 0
   MaxParas = 3
   HdrKinds = {"contact1", "full"}
-  BigPats = {1, 3}
+  BigPats = {3}
   CopyMax = 2
   CopyAlpha = {"I"}
   BigTextMax = 2
